@@ -43,6 +43,26 @@ void checkSaves(NifFile& n, const std::string& source, const std::string& stage)
 		err = c07ReloadCheck(out, site);
 		if (!err.empty()) { R_viol("reader-consumption", vclass + "/" + site, source + " [" + stage + (raw ? ",raw" : ",default") + "]: " + err); continue; }
 		if (tr.blocks.size() > 1) R_cover(fmt("%s/%s/%d/%016llx", source.c_str(), stage.c_str(), mode, (unsigned long long)hashStr(out)));
+		uint64_t h = hashStr(out);
+		if (h % 3 == 0) {
+			// the same model written into a stream that already holds data (container member, second model appended): the file is
+			// the bytes from the start position on; they are what a fresh stream receives, and what came before is untouched
+			R_phase("save:after-preamble");
+			static const size_t PRE[] = {1, 7, 64, 1000, 4096, 70000};
+			std::string pre = (h / 3) % 7 == 6 ? out : std::string(PRE[(h / 3) % 7 % 6], '\x5A');
+			NifFile cp2(n);
+			std::string whole = saveNifAfter(cp2, raw, pre);
+			R_eval();
+			R_stat("files_written_after_a_preamble");
+			if (whole.size() < pre.size() || whole.compare(0, pre.size(), pre) != 0)
+				R_viol("stream-position", vclass + "/preamble-changed", source + " [" + stage + (raw ? ",raw" : ",default") + fmt("]: saving into a stream at position %zu changes the %zu bytes that were already there", pre.size(), pre.size()));
+			else if (whole.compare(pre.size(), std::string::npos, out) != 0) {
+				std::string part = whole.substr(pre.size());
+				size_t at = 0;
+				while (at < part.size() && at < out.size() && part[at] == out[at]) at++;
+				R_viol("stream-position", vclass + "/differs-from-fresh-stream", source + " [" + stage + (raw ? ",raw" : ",default") + fmt("]: the file written at stream position %zu (%zu bytes) differs from the one written into a fresh stream (%zu bytes), first at file offset %zu", pre.size(), part.size(), out.size(), at));
+			}
+		}
 	}
 }
 
@@ -165,6 +185,6 @@ MonReg reg({"C07", "exploration",
 			"as loaded and second generation; API-built models incl. freshly added blocks, before and after edits (edits include SetExportInfo / SetCreatorInfo with lengths around 254..256 and the chunk boundaries); every second model is loaded / created in a NifFile object that has held another model; 36 versions for the synthesised files; raw and default options each) is parsed by an independent header reader: "
 			"header end + sum of declared sizes + 8-byte footer {1,0} = file size, type indices in range, block type names match the objects, each declared size equals the bytes the "
 			"writer emitted between consecutive Block hook events AND the bytes the library's reader consumes on reload, maxStringLen is the true maximum, no duplicate strings (no unknown "
-			"blocks), every string index at a StringRef hook offset is empty or inside the table and denotes the field's text. Non-trivial = written file with >1 block; distinct by output hash.",
+			"blocks), every string index at a StringRef hook offset is empty or inside the table and denotes the field's text; a third of the outputs is also written into a stream that already holds 1..70000 bytes (or a first copy of the model) and must equal the fresh-stream file from that position on, leaving the earlier bytes alone. Non-trivial = written file with >1 block; distinct by output hash.",
 			[] { return layout().total(); }, run, 30, 120.0, false, false, nullptr});
 } // namespace
